@@ -7,7 +7,7 @@
 
 use crate::io_common::*;
 use futures_io::AsyncWrite;
-use mcx::explore::{explore_from, replay, SharedChooser};
+use mcx::explore::{explore_shard, replay, SharedChooser};
 use mcx::{Report, Tier};
 use minicbor::encode::{self, Encode, Encoder, Write};
 use minicbor_io::AsyncWriter;
@@ -94,23 +94,23 @@ impl AsyncWrite for Sink {
         s.last_poll_pending = false;
         let n = buf.len();
         // options: accept n, accept n-1 .. 1 (free), Pending (1), transient error (1), accept 0 (1)
-        let (sizes, mut costs) = size_menu(n, s.coarse);
-        let accept_opts = costs.len();
+        let mut menu = size_menu(n, s.coarse);
+        let accept_opts = menu.n;
         let can_pend = s.consecutive_pending < s.lim.p;
         let can_err = s.errors < s.lim.e;
         let can_zero = s.zeros < s.lim.z && n > 0;
         if can_pend {
-            costs.push(1);
+            menu.push(1);
         }
         if can_err {
-            costs.push(1);
+            menu.push(1);
         }
         if can_zero {
-            costs.push(1);
+            menu.push(1);
         }
-        let c = s.ch.borrow_mut().choose("poll_write", &costs);
+        let c = s.ch.borrow_mut().choose("poll_write", menu.costs());
         if c < accept_opts {
-            let k = sizes[c];
+            let k = menu.sizes[c];
             s.received.extend_from_slice(&buf[..k]);
             s.consecutive_pending = 0;
             return Poll::Ready(Ok(k));
@@ -433,7 +433,7 @@ pub fn scenarios(tier: Tier) -> (Vec<Scenario>, Limits, String) {
     // largest scenarios first so that the dynamic sharding balances
     out.sort_by_key(|s: &Scenario| std::cmp::Reverse(s.values.iter().map(|v| v.payload().map(|p| p.len() + 4).unwrap_or(0)).sum::<usize>()));
     let bound = format!(
-        "0..={} values over {} value kinds (3 encodable arrays of 5..7 frame bytes, 2 failing encoders), max_len in {{default, 2, 3}}, plus values with payloads of 255..65537 bytes (writes of more than 32 bytes accepted whole or, as one deviation each, 1 / half / all-but-one bytes); AsyncWriter::new and ::with_buffer(recycled buffer); sink: all accept sizes (free), <= {} consecutive Pending, <= {} transient errors, <= {} zero-length accepts; caller: <= {} dropped write/sync futures; total deviation budget {}",
+        "0..={} values over {} value kinds (3 encodable arrays of 5..7 frame bytes, 2 failing encoders), max_len in {{default, 2, 3}}, plus values with payloads of 255..65537 bytes and of 512 KiB / 512 KiB + 1 (the default maximum; deviation budget 2) (writes of more than 32 bytes accepted whole or, as one deviation each, 1 / half / all-but-one bytes); AsyncWriter::new and ::with_buffer(recycled buffer); sink: all accept sizes (free), <= {} consecutive Pending, <= {} transient errors, <= {} zero-length accepts; caller: <= {} dropped write/sync futures; total deviation budget {}",
         max_vals, vals.len(), lim.p, lim.e, lim.z, lim.d, lim.b
     );
     (out, lim, bound)
@@ -444,17 +444,22 @@ pub fn run(r: &Report) {
     r.space("write-sync-schedules", true, &bound, 4);
     r.assume("write is never re-issued after a cancellation without a completed sync (documented to discard the remainder)");
     const FIRST: usize = 12;
+    // distinct quiescent states over the whole exploration (merged across shards)
+    let all_states: std::sync::Mutex<HashSet<u64>> = std::sync::Mutex::new(HashSet::new());
     mcx::par::run_shards(
-        scs.len() * FIRST,
+        scs.len() * FIRST * FIRST,
         |shard| {
-            let i = shard / FIRST;
-            let first = (shard % FIRST) as u32;
+            // one scenario is split by its first two choices
+            let i = shard / (FIRST * FIRST);
+            let first = ((shard / FIRST) % FIRST) as u32;
+            let second = (shard % FIRST) as u32;
             let sc = &scs[i];
             let mut outcomes: BTreeMap<String, u64> = BTreeMap::new();
             let mut states: HashSet<u64> = HashSet::new();
             let mut nontrivial = 0u64;
             mcx::slot::case("c16-scenario", sc.json().to_string().as_bytes());
-            let (stats, fail) = explore_from(lim.b, Some((first, FIRST as u32)), |ch| {
+            let t0 = std::time::Instant::now();
+            let (stats, fail) = explore_shard(if sc.values.iter().any(|v| matches!(v, Val::Arr(a) if a.len() > 100_000)) { lim.b.min(2) } else { lim.b }, &[first, second], FIRST as u32, |ch| {
                 mcx::slot::beat();
                 let mut obs = None;
                 let res = match mcx::par::guard(|| run_once(sc, lim, ch, &mut obs)) {
@@ -470,10 +475,14 @@ pub fn run(r: &Report) {
                 }
                 res
             });
+            if std::env::var("VERIF_TIMING").is_ok() && t0.elapsed().as_millis() > 300 {
+                eprintln!("TIMING {} ms, {} executions, shard {} of {}", t0.elapsed().as_millis(), stats.executions, first, sc.json());
+            }
             r.add("write-sync-schedules", stats.executions, nontrivial.min(stats.executions));
-            r.add_states("write-sync-schedules", states.len() as u64, stats.choice_points);
+            r.add_states("write-sync-schedules", 0, stats.choice_points);
+            all_states.lock().unwrap().extend(states);
             r.outcomes("write-sync-schedules", &outcomes);
-            if i % 41 == 0 && first == 0 {
+            if i % 41 == 0 && first == 0 && second == 0 {
                 r.sample("write-sync-schedules", json!({"scenario": sc.json(), "executions": stats.executions, "max_choice_points": stats.max_trace_len}));
             }
             if let Some((choices, labels, msg)) = fail {
@@ -500,6 +509,7 @@ pub fn run(r: &Report) {
         },
         crate::hang_handler(r.property.clone()),
     );
+    r.add_states("write-sync-schedules", all_states.lock().unwrap().len() as u64, 0);
 }
 
 pub fn replay_case(case: &serde_json::Value) -> Result<(), String> {
